@@ -2,9 +2,9 @@ from .core import BASE_TRUST
 
 META = {
     "category": "proof",
-    "text": "Lean 4 theorems, for ALL tables, ALL conditions (arbitrary functions Row -> Tern) and ALL cuttings of the outer record range into worker chunks (= every --cpu and table size): View.filter keeps exactly the rows whose condition is TRUE, in source order and with source multiplicities; CrossJoin / InnerJoin equal the left-major nested-loop specification (inner = selection of the cross product); OuterJoin (LEFT, RIGHT with the view swap, FULL with per-worker match flags OR-ed afterwards) equals the specification that pads exactly the unmatched rows with NULLs (characterisation: a left row has a partner iff its padded copy is absent; row count = sum over left rows of max(1, partners); FULL appends exactly the partnerless right rows); the USING / NATURAL merge emits each joined column once, first, coalesced; select-list projection; recursive CTE with UNION ALL = concatenation of the generations up to the first empty one, with UNION (distinct) = the first-occurrence de-duplication by comparison key of those generations (de-duplicating the anchor early or late gives the same result; no key twice, no key lost), limit error iff the first `limit` generations are non-empty; an OUTER join against an empty other side pads every preserved row whatever the condition (a NATURAL join without a common column has no condition: INNER = cross product, OUTER still pads). Model tied to /repo by differential correspondence: generated query plans (1-4 sources, every join kind incl. NATURAL/USING, WHERE over comparison/logic/IS NULL/BETWEEN/IN, sub-selects to depth 3, CTEs, recursive CTEs) rendered to SQL and run through the real processor at --cpu 1-8 on tables of 0-400 rows, result rows compared in order; plus laws checked on the implementation alone (WHERE vs per-row SELECT (cond); outer = inner + padded unmatched; LEFT/RIGHT mirror; USING vs ON merged; LATERAL vs plain joins and the empty-left header; recursive CTE vs iterated queries). field references by name resolve as Header.FieldIndex does (resolve_unique: field k iff k is the only match; resolve_ambiguous_iff: an error iff two or more match; not found iff none; FieldNumberIndex, ContainsObject's loop and SearchIndex modelled and tied to the regenerated predicates; `*` / `t.*` list exactly the table columns (of that view) in header order; NATURAL / USING name resolution of ParseJoinCondition; an outer join pads iff no partner makes ON TRUE, UNKNOWN counting like FALSE; sound; two candidates without a join column = AMBIGUOUS; the merged column of a USING/NATURAL join wins only inside the join's own query, View.Fix clears the flag, so a derived table joined with a table of an equally named column makes the unqualified name ambiguous); sub-queries inside expressions, evaluated per record with the record on the stack of outer records (scalar: no record = NULL, several = error; EXISTS never UNKNOWN; x IN (q) = x = ANY (q), NOT IN = <> ALL = NOT (IN) by De Morgan in Kleene logic, with the NULL-in-list counter-witness to the naive reading; correlated EXISTS = semi-join; correlated scalar sub-query = LEFT JOIN under a unique key, counter-witness without); set-operator chains (UNION ALL / UNION / INTERSECT ALL associative, EXCEPT not, INTERSECT binds tighter - counter-witnesses); LATERAL records = per-record application (header lost for an empty left table: F15 counter-witness); header order after USING / NATURAL (join columns first, t.* never lists them); every select item is evaluated on its own (the k-th column = the k-th item alone); a FROM name denotes the recursive working view, else a CTE, else a temporary table, else a file; inside the recursive member of WITH RECURSIVE r the name r denotes the records of the PREVIOUS iteration wherever it is written - a second time in the FROM list, in a derived table, in LATERAL sub-selects and in sub-queries evaluated per record at any depth - whatever common table expression, temporary table or file of the same name exists (recursive_reference_any_depth over every chain of the scope constructors createScope / CreateNode / CreateChild, which all inherit RecursiveTable, RecursiveTmpView, RecursiveCount: deriveAll_inherits), inside the anchor member it is what it was outside (anchor_reference_is_outer), every other name is looked up as without recursion; conditions with open references evaluate with eval.go's short-circuits and agree with the total evaluation when nothing is open. The code the model mirrors is REGENERATED from lib/query/{header,utils,view,load_view,join,reference_scope,query,inline_tables}.go on every run (extract/relfacts): the origin of every field of the ReferenceScope that createScope / CreateChild / CreateNode return (inherited / fresh / zero, read from their composite literals; a field the model does not know = [gen]) with gen_scope_derive_eq_model (= the model's NameScope.derive) and gen_scope_inherits_tx_cache_now, the bodies of the three constructors, selectSet, selectSetForRecursion and InlineTableMap.Set pinned as token lists; Header.FieldIndex's loop as a Lean function with gen_fieldIndex_eq_model (= the model's fieldIndex for all headers and references), the order of loadObject's tests with gen_table_kind_order_eq_model, the keep tests of filter / InnerJoin / OuterJoin, the FULL-join flag update, the Merge operand order and the padding test with gen_*_eq_model theorems, CalcMinimumRequired as an integer function, and the statements of View.Fix, the writes of IsJoinColumn / Aliases, joinViews' dispatch, the join bodies, SearchIndex / ContainsObject / Header.Update as token lists pinned against the reviewed lean/Csvq/Ref/RelFacts.lean. Proof level for the modelled operator set; functions and clauses outside it (GROUP BY/HAVING, aggregates, analytic functions, ORDER BY/LIMIT, set operators other than UNION ALL in a recursive CTE, scalar/EXISTS subqueries, arithmetic in conditions, file-backed tables) are not claimed here",
+    "text": "Lean 4 theorems, for ALL tables, ALL conditions (arbitrary functions Row -> Tern) and ALL cuttings of the outer record range into worker chunks (= every --cpu and table size): View.filter keeps exactly the rows whose condition is TRUE, in source order and with source multiplicities; CrossJoin / InnerJoin equal the left-major nested-loop specification (inner = selection of the cross product); OuterJoin (LEFT, RIGHT with the view swap, FULL with per-worker match flags OR-ed afterwards) equals the specification that pads exactly the unmatched rows with NULLs (characterisation: a left row has a partner iff its padded copy is absent; row count = sum over left rows of max(1, partners); FULL appends exactly the partnerless right rows); the USING / NATURAL merge emits each joined column once, first, coalesced; select-list projection; recursive CTE with UNION ALL = concatenation of the generations up to the first empty one, with UNION (distinct) = the first-occurrence de-duplication by comparison key of those generations (de-duplicating the anchor early or late gives the same result; no key twice, no key lost), limit error iff the first `limit` generations are non-empty; an OUTER join against an empty other side pads every preserved row whatever the condition (a NATURAL join without a common column has no condition: INNER = cross product, OUTER still pads). Model tied to /repo by differential correspondence: generated query plans (1-4 sources, every join kind incl. NATURAL/USING, WHERE over comparison/logic/IS NULL/BETWEEN/IN, sub-selects to depth 3, CTEs, recursive CTEs) rendered to SQL and run through the real processor at --cpu 1-8 on tables of 0-400 rows, result rows compared in order; plus laws checked on the implementation alone (WHERE vs per-row SELECT (cond); outer = inner + padded unmatched; LEFT/RIGHT mirror; USING vs ON merged; LATERAL vs plain joins and the empty-left header; recursive CTE vs iterated queries). field references by name resolve as Header.FieldIndex does (resolve_unique: field k iff k is the only match; resolve_ambiguous_iff: an error iff two or more match; not found iff none; FieldNumberIndex, ContainsObject's loop and SearchIndex modelled and tied to the regenerated predicates; `*` / `t.*` list exactly the table columns (of that view) in header order; NATURAL / USING name resolution of ParseJoinCondition; an outer join pads iff no partner makes ON TRUE, UNKNOWN counting like FALSE; sound; two candidates without a join column = AMBIGUOUS; the merged column of a USING/NATURAL join wins only inside the join's own query, View.Fix clears the flag, so a derived table joined with a table of an equally named column makes the unqualified name ambiguous); sub-queries inside expressions, evaluated per record with the record on the stack of outer records (scalar: no record = NULL, several = error; EXISTS never UNKNOWN; x IN (q) = x = ANY (q), NOT IN = <> ALL = NOT (IN) by De Morgan in Kleene logic, with the NULL-in-list counter-witness to the naive reading; correlated EXISTS = semi-join; correlated scalar sub-query = LEFT JOIN under a unique key, counter-witness without); set-operator chains (UNION ALL / UNION / INTERSECT ALL associative, EXCEPT not, INTERSECT binds tighter - counter-witnesses); LATERAL records = per-record application (header lost for an empty left table: F15 counter-witness); header order after USING / NATURAL (join columns first, t.* never lists them); every select item is evaluated on its own (the k-th column = the k-th item alone); a FROM name denotes the recursive working view, else a CTE, else a temporary table, else a file; inside the recursive member of WITH RECURSIVE r the name r denotes the records of the PREVIOUS iteration wherever it is written - a second time in the FROM list, in a derived table, in LATERAL sub-selects and in sub-queries evaluated per record at any depth - whatever common table expression, temporary table or file of the same name exists (recursive_reference_any_depth over every chain of the scope constructors createScope / CreateNode / CreateChild, which all inherit RecursiveTable, RecursiveTmpView, RecursiveCount: deriveAll_inherits), inside the anchor member it is what it was outside (anchor_reference_is_outer), every other name is looked up as without recursion; only the set operator of the recursive table's OWN query is the recursion (own_set_operator_is_recursion), a set operator anywhere below it - per-record sub-queries, LATERAL sub-selects, derived tables of the anchor or the member, a parenthesised right-hand side - is an ordinary UNION / EXCEPT / INTERSECT evaluated in the scope where it stands (nested_set_operator_is_ordinary, anchor_nested_set_operator_is_ordinary: the recursion-root mark is inherited by no scope constructor), for `anchor UNION ALL (m1 <op> m2)` every generation is the combination of both members applied to the generation before (two_member_generation, two_member_union_all_ends_iff); conditions with open references evaluate with eval.go's short-circuits and agree with the total evaluation when nothing is open. The code the model mirrors is REGENERATED from lib/query/{header,utils,view,load_view,join,reference_scope,query,inline_tables}.go on every run (extract/relfacts): the origin of every field of the ReferenceScope that createScope / CreateChild / CreateNode return (inherited / fresh / zero, read from their composite literals; a field the model does not know = [gen]) with gen_scope_derive_eq_model (= the model's NameScope.derive), gen_scope_inherits_tx_cache_now and gen_scope_root_not_inherited (recursionRoot is zero in every derived scope), every call of selectQuery and every write of .recursionRoot in lib/query (gen_recursion_bodies_eq_ref), the bodies of the three constructors, selectSet, selectSetForRecursion and InlineTableMap.Set pinned as token lists; Header.FieldIndex's loop as a Lean function with gen_fieldIndex_eq_model (= the model's fieldIndex for all headers and references), the order of loadObject's tests with gen_table_kind_order_eq_model, the keep tests of filter / InnerJoin / OuterJoin, the FULL-join flag update, the Merge operand order and the padding test with gen_*_eq_model theorems, CalcMinimumRequired as an integer function, and the statements of View.Fix, the writes of IsJoinColumn / Aliases, joinViews' dispatch, the join bodies, SearchIndex / ContainsObject / Header.Update as token lists pinned against the reviewed lean/Csvq/Ref/RelFacts.lean. Proof level for the modelled operator set; functions and clauses outside it (GROUP BY/HAVING, aggregates, analytic functions, ORDER BY/LIMIT, set operators other than UNION ALL in a recursive CTE, scalar/EXISTS subqueries, arithmetic in conditions, file-backed tables) are not claimed here",
     "design_ref": "DESIGN.md section 5, C03",
-    "note": "a set operator nested in a member of a recursive CTE is run by csvq as a recursion of its own (selectSet tests scope.RecursiveTable) - reported as a finding, not modelled, the generator writes none; trusted: Lean kernel; harness + driver (plan -> SQL renderer, name resolution to column indices, canonicalisation); the evaluation of single comparisons is C06's model (coercion profiles supplied by the real value.To* functions); LATERAL is checked by direct laws only (not modelled); the step from the Go loops to the list recursion of Model/Rel.lean is by reading",
+    "note": "F101 (a set operator nested in a member of a recursive CTE ran as a recursion of its own) was found by this generator and is repaired; still open on the tree: the recursion-limit error of a recursive CTE whose right-hand side is parenthesised is a panic (error.go searchSelectClauseInSelectEntity on a parser.Subquery) - measured at the start of every run (count finding:limit_error_of_parenthesised_member_panics); while it panics the parenthesised form is generated only where the recursion ends by itself; chains a UNION ALL b UNION ALL c inside a recursive definition are not generated; trusted: Lean kernel; harness + driver (plan -> SQL renderer, name resolution to column indices, canonicalisation); the evaluation of single comparisons is C06's model (coercion profiles supplied by the real value.To* functions); LATERAL is checked by direct laws only (not modelled); the step from the Go loops to the list recursion of Model/Rel.lean is by reading",
     "technique": "Lean 4 machine-checked proof (refinement of chunked worker loops to sequential relational specifications; go/ast re-derivation of the mirrored functions with equality theorems) + differential correspondence with the Go implementation + direct law checks",
 }
 
@@ -76,7 +76,7 @@ def run(run):
     classify(run)
     return run.finish(
         level="proof",
-        rule="typed query generator: 1-4 sources over temporary tables of 0-400 rows (NULLs, duplicate rows, mixed text/numeric strings, few distinct key values), join trees of depth <= 3 of kinds CROSS/INNER/LEFT/RIGHT/FULL with ON, USING or NATURAL, WHERE and ON conditions over comparison (= == < <= > >= <>), AND/OR/NOT, IS [NOT] NULL, [NOT] BETWEEN, [NOT] IN, bare truth values; sub-selects in FROM nested to depth 3, CTEs (also referenced twice), recursive CTEs with UNION ALL and UNION over edge tables (random DAGs, chains of depth >= 3, diamonds, cycles, self-loops) and anchors with duplicate rows / no rows / rows sharing successors, --limit-recursion 0-6 or 1000; derived tables / CTEs built from USING/NATURAL/ON joins re-joined with a table sharing column names, with unqualified / qualified / upper-case references by name in ON, WHERE and select lists (outcome rows or AMBIGUOUS / NOT FOUND compared with the model's own resolution); scalar sub-queries, EXISTS, IN / ANY / ALL (sub-query) in WHERE and select lists, correlated up to two levels, with outcomes rows / too many records / too many fields; chains of 2-4 UNION / EXCEPT / INTERSECT [ALL] operands plain and parenthesised; CROSS / INNER / LEFT JOIN LATERAL incl. empty left tables; `*`, `t.*` and CTE column lists over USING / NATURAL / ON joins - all compared with the model; select lists of several computed, near-identical items (literals, conditions as values, CASE, differing only in the letter case of a string literal / one operand / the operand order) compared with the model, each item also with itself evaluated alone (law select_item_independent, also over ||, +, COALESCE and two RAND() items; ORDER BY / GROUP BY next to a near-identical item against a derived table); Header.SearchIndex / ContainsObject called directly on described headers (letter case, blanks, aliases, flagged join columns anywhere, column numbers, computed columns) as op c03.resolve; USING (names) / NATURAL resolved by the model itself, also with names that are ambiguous or unknown on a side; LEFT / RIGHT / FULL joins with ON conditions that are UNKNOWN for some pairs and FALSE for others (law outer_join_pads_iff_no_true_match against NOT EXISTS); sessions where a CTE, a temporary table and a file carry the same name (all 7 combinations; CTE over itself-named table, self-join, CTE local to a sub-select); recursive CTEs written by NAME (plan node WR, UNION ALL and UNION, --limit-recursion 0-5 / 1000, graphs dag / chain / diamond / cycle) whose recursive member refers to the recursive table more than once: self-join of the working view in the FROM list, the working view inside a derived table, CROSS / INNER JOIN LATERAL sub-selects and sub-queries evaluated per record of every kind (IN / NOT IN, [NOT] EXISTS, scalar in WHERE and as select item, ANY, ALL, two levels deep, a self-join inside the sub-query), the edge table also through a common table expression read from inside per-record sub-queries - in sessions without and with decoys of the same name and the same columns (file, temporary table, both, a CTE of the enclosing query, that and a temporary table), the anchor member reading the decoy directly or from a sub-query, the body reading the finished table also from a per-record sub-query, outcomes rows / recursion limit / too many records / ambiguous compared with the model; law recursive_named_eq_iterated (the same generations by separate non-recursive queries over a temporary table holding the previous generation), witness now_inherited_by_nested_scopes (NOW() in LATERAL / per-record / derived-table scopes = NOW() of the statement); the full grid NATURAL/USING x {no, one, two, all columns shared} x {INNER, LEFT, RIGHT, FULL} x {0, 1, many rows} per side (144 combinations per run); --cpu 1-8; ordered comparison of result rows with the Lean model, disagreements classified order/content; non-trivial = distinct (plan skeleton incl. join kinds/forms and condition heads, result-size band, parallel path taken) signature, plus distinct law-case signatures",
+        rule="typed query generator: 1-4 sources over temporary tables of 0-400 rows (NULLs, duplicate rows, mixed text/numeric strings, few distinct key values), join trees of depth <= 3 of kinds CROSS/INNER/LEFT/RIGHT/FULL with ON, USING or NATURAL, WHERE and ON conditions over comparison (= == < <= > >= <>), AND/OR/NOT, IS [NOT] NULL, [NOT] BETWEEN, [NOT] IN, bare truth values; sub-selects in FROM nested to depth 3, CTEs (also referenced twice), recursive CTEs with UNION ALL and UNION over edge tables (random DAGs, chains of depth >= 3, diamonds, cycles, self-loops) and anchors with duplicate rows / no rows / rows sharing successors, --limit-recursion 0-6 or 1000; derived tables / CTEs built from USING/NATURAL/ON joins re-joined with a table sharing column names, with unqualified / qualified / upper-case references by name in ON, WHERE and select lists (outcome rows or AMBIGUOUS / NOT FOUND compared with the model's own resolution); scalar sub-queries, EXISTS, IN / ANY / ALL (sub-query) in WHERE and select lists, correlated up to two levels, with outcomes rows / too many records / too many fields; chains of 2-4 UNION / EXCEPT / INTERSECT [ALL] operands plain and parenthesised; CROSS / INNER / LEFT JOIN LATERAL incl. empty left tables; `*`, `t.*` and CTE column lists over USING / NATURAL / ON joins - all compared with the model; select lists of several computed, near-identical items (literals, conditions as values, CASE, differing only in the letter case of a string literal / one operand / the operand order) compared with the model, each item also with itself evaluated alone (law select_item_independent, also over ||, +, COALESCE and two RAND() items; ORDER BY / GROUP BY next to a near-identical item against a derived table); Header.SearchIndex / ContainsObject called directly on described headers (letter case, blanks, aliases, flagged join columns anywhere, column numbers, computed columns) as op c03.resolve; USING (names) / NATURAL resolved by the model itself, also with names that are ambiguous or unknown on a side; LEFT / RIGHT / FULL joins with ON conditions that are UNKNOWN for some pairs and FALSE for others (law outer_join_pads_iff_no_true_match against NOT EXISTS); sessions where a CTE, a temporary table and a file carry the same name (all 7 combinations; CTE over itself-named table, self-join, CTE local to a sub-select); recursive CTEs written by NAME (plan node WR, UNION ALL and UNION, --limit-recursion 0-5 / 1000, graphs dag / chain / diamond / cycle) whose recursive member refers to the recursive table more than once: self-join of the working view in the FROM list, the working view inside a derived table, CROSS / INNER JOIN LATERAL sub-selects and sub-queries evaluated per record of every kind (IN / NOT IN, [NOT] EXISTS, scalar in WHERE and as select item, ANY, ALL, two levels deep, a self-join inside the sub-query), the edge table also through a common table expression read from inside per-record sub-queries - in sessions without and with decoys of the same name and the same columns (file, temporary table, both, a CTE of the enclosing query, that and a temporary table), the anchor member reading the decoy directly or from a sub-query, the body reading the finished table also from a per-record sub-query, outcomes rows / recursion limit / too many records / ambiguous compared with the model; law recursive_named_eq_iterated (the same generations by separate non-recursive queries over a temporary table holding the previous generation), set operators UNION / EXCEPT / INTERSECT [ALL] below the recursive table's own one: inside the per-record sub-queries (IN / EXISTS / scalar / ANY / ALL) and LATERAL sub-selects of the recursive member, as derived tables in the FROM of the anchor (also over the decoy) and of the recursive member, as a parenthesised right-hand side `anchor UNION [ALL] (m1 <op> m2)` with both members reading the working view, and in a common table expression defined after the recursive one over the finished table; witness now_inherited_by_nested_scopes (NOW() in LATERAL / per-record / derived-table scopes = NOW() of the statement); the full grid NATURAL/USING x {no, one, two, all columns shared} x {INNER, LEFT, RIGHT, FULL} x {0, 1, many rows} per side (144 combinations per run); --cpu 1-8; ordered comparison of result rows with the Lean model, disagreements classified order/content; non-trivial = distinct (plan skeleton incl. join kinds/forms and condition heads, result-size band, parallel path taken) signature, plus distinct law-case signatures",
         trusted_base=BASE_TRUST + ["extract/relfacts (go/ast translator: boolean / string / integer subset of FieldIndex, the keep tests and CalcMinimumRequired; token lists elsewhere)", "C06 comparison model as the evaluator of single conditions", "harness name resolution (plan -> column indices) and SQL renderer"],
         checker_cmd="cd /verif/lean && lake build Csvq.Props.C03 && lake env lean <#print axioms for every theorem>",
     )
